@@ -302,6 +302,19 @@ def run_sched(s):
     return out
 
 
+def plain_ok(source):
+    """does the test run to its end when snapshot() accepts everything? (the random mutations may break the test itself)"""
+    ns = {}
+    plain = source.replace("from inline_snapshot import snapshot\n", "class _Any:\n    def __eq__(s, o): return True\n    def __le__(s, o): return True\n    def __ge__(s, o): return True\n"
+                           "    def __contains__(s, o): return True\n    def __getitem__(s, k): return s\ndef snapshot():\n    return _Any()\n")
+    try:
+        exec(compile(plain, "<plain>", "exec"), ns)
+        ns["test_a"]()
+        return True
+    except Exception:  # noqa
+        return False
+
+
 def judge_sched(s, o):
     if o["session_exc"] or o["module_exc"]:
         return f"run failed: {o['session_exc'] or o['module_exc']}"
